@@ -33,6 +33,9 @@ namespace AIToolbox::MDP {
             policy_(s, actions[s]) = 1.0;
     }
 
+    Policy::Policy(const Policy & p) :
+            PolicyInterface::Base(p.getS(), p.getA()), PolicyWrapper(policy_), policy_(p.policy_) {}
+
     Policy::Policy(const PolicyMatrix & p) :
             PolicyInterface::Base(p.rows(), p.cols()), PolicyWrapper(policy_), policy_(p)
     {
